@@ -24,7 +24,7 @@ HiNow(c) == IF hi[c] >= 0 THEN hi[c] ELSE cached
 
 (* ---- C01 / C02 ----------------------------------------------------------- *)
 NoBacklogDrop == \A c \in Cons : withheld[c] = <<>>
-Delivery == \A c \in Cons : lo[c] >= 0 => P!DeliveredOK(delivered[c], lo[c], HiNow(c), cached)
+Delivery == \A c \in Cons : (lo[c] >= 0 /\ withheld[c] = <<>>) => P!DeliveredOK(delivered[c], lo[c], HiNow(c), cached)
 Untouched(c) == status = "ok" /\ ~closedF[c] /\ c \notin Panics
 Complete == (Quiescent /\ NoBacklogDrop) =>
               \A c \in Cons : (Attached(c) /\ Untouched(c)) =>
@@ -50,6 +50,14 @@ PubStep == PubStart \/ PubCache \/ PubRange \/ PubSend \/ PubSent
 PublisherNeverBlocked ==
   pc["pub"] \notin {"done", "lockwait"} => ENABLED PubStep
 LockHolderMoves == (FixJoin /\ lk # "free") => pc[lk] \notin {"waiting", "lockwait", "done", "idle"}
+
+(* withheld runs begin at a key packet and the next packet given to the consumer is a key packet *)
+DropsAligned ==
+  /\ \A c \in Cons : lo[c] >= 0 => P!DeliveredOKDrops(delivered[c], lo[c], HiNow(c), cached)
+  /\ \A c \in Cons : \A i \in P!Range(withheld[c]) :
+        /\ ((i - 1) \notin P!Range(withheld[c])) => Pkts[i] = "key"
+        /\ ((i + 1) \notin P!Range(withheld[c]) /\ i + 1 <= sentAll) => Pkts[i + 1] = "key"
+Backlog == \A c \in Cons : P!BacklogOK(Len(q[c]), MaxQ, 2 + P!G, cached)
 
 (* ---- schedule emission ---------------------------------------------------- *)
 (* EmitMode "edges": printed from an ACTION_CONSTRAINT, once per explored transition (BFS with
